@@ -44,6 +44,8 @@ def shapes(tier, seed):
     for N in (1, 2, 3, 4):
         out.append({"kind": "double", "N": N, "unit": True, "lead": 2 if (N == 4 and tier == "quick") else N})
     out.append({"kind": "double", "N": 1, "unit": False, "lead": 1})
+    for N in (1, 2, 3):
+        out.append({"kind": "double", "N": N, "unit": True, "lead": N, "history": True})
     for N in (8, 40, 272, 2080, "other"):
         out.append({"kind": "fulldiv", "N": N})
     return out
@@ -204,6 +206,18 @@ def run_double(shape):
                 def _gen_grid(self):
                     self.grid = sarr([[SR(x) for x in row] for row in G])
                     return super()._gen_grid()
+            if shape.get("history"):
+                # another grid object with 2N rows (a direction grid, arbitrary signs) is asked for its "upper" rows first
+                rows3 = np.array([[(-1.0) ** (i + 1) * 0.6, 0.0, 0.8] for i in range(2 * N)])
+
+                class Dir(RO.SphereGrid3Dim):
+                    algorithm_name = "ico"
+
+                    def _gen_grid(self):
+                        return rows3.copy()
+                d3 = Dir(N=2 * N)
+                d3.gen_grid()
+                d3.get_grid_as_array(only_upper=True)
             g = SymGrid(N=N)
             g.gen_grid()
             return g.get_grid_as_array(only_upper=False), g.get_grid_as_array(), g.get_upper_indices(), g.get_N(), type(g.get_spherical_voronoi()).__name__
@@ -328,6 +342,22 @@ def replay(cex):
     RO.HalfRotobjVoronoi = Inert
     try:
         with contextlib.redirect_stdout(io.StringIO()):
+            if s.get("history"):
+                rows3 = np.array([[(-1.0) ** (i + 1) * 0.6, 0.0, 0.8] for i in range(2 * N)])
+
+                class Dir(RO.SphereGrid3Dim):
+                    algorithm_name = "ico"
+
+                    def _gen_grid(self):
+                        return rows3.copy()
+                oldf = RO.RotobjVoronoi
+                RO.RotobjVoronoi = Inert
+                try:
+                    d3 = Dir(N=2 * N)
+                    d3.gen_grid()
+                    d3.get_grid_as_array(only_upper=True)
+                finally:
+                    RO.RotobjVoronoi = oldf
             g = ConcGrid(N=N)
             try:
                 g.gen_grid()
@@ -348,7 +378,7 @@ def replay(cex):
 
 
 def finding_key(cex):
-    return f"C07:{cex['shape']['kind']}:{cex['obligation'].split('[')[0]}"
+    return f"C07:{cex['shape']['kind']}{':history' if cex['shape'].get('history') else ''}:{cex['obligation'].split('[')[0]}"
 
 
 def selftest(seed):
